@@ -405,10 +405,160 @@ def oracleC14 (lines : List String) : OResult :=
     else res
   { res with cov := (if st.over.isEmpty then [] else ["o:override"]) ++ (if st.msgs.length > 10 then ["o:traffic"] else []) }
 
+/-! ### C15 -/
+
+structure C15Obj where
+  host : Nat
+  slot : Nat
+  kind : String            -- udp | listener | stream | connecting
+  port : Nat               -- 0 = not yet known (pending connect)
+  eph : Bool
+
+structure C15St where
+  lo : Nat := 0
+  hi : Nat := 0
+  objs : List C15Obj := []
+  failedConnect : List Nat := []     -- hosts on which a connect failed or was dropped while pending
+  snap : List ((Nat × Nat) × List Nat) := []   -- (host, slot) of a connect ↦ ports live when it started
+  res : OResult := {}
+  sawWrap : Bool := false
+  -- DNS
+  nameIp : List (String × Nat) := []
+
+def C15St.fail (st : C15St) (ln : Nat) (msg : String) : C15St :=
+  if st.res.ok then { st with res := { ok := false, line := ln, detail := msg } } else st
+
+def c15LivePorts (st : C15St) (h : Nat) : List Nat :=
+  (st.objs.filter (fun o => o.host == h && o.port != 0)).map (·.port)
+
+def c15Drop (st : C15St) (h s : Nat) : C15St :=
+  let pendingDropped := st.objs.any (fun o => o.host == h && o.slot == s && o.kind == "connecting")
+  { st with objs := st.objs.filter (fun o => !(o.host == h && o.slot == s)),
+            failedConnect := if pendingDropped then st.failedConnect ++ [h] else st.failedConnect }
+
+def addrPort (t : String) : Nat := match t.splitOn ":" with | [_, p] => p.toNat?.getD 0 | _ => 0
+
+def c15Step (st : C15St) (x : Nat × List String × List String) : C15St :=
+  let (ln, op, obs) := x
+  let inRange := fun (p : Nat) => st.lo ≤ p && p ≤ st.hi
+  let freeInRange := fun (h : Nat) =>
+    -- ports of the range not used by any socket we know to be alive (pending connects hold one unknown port each)
+    let live := c15LivePorts st h
+    let pending := (st.objs.filter (fun o => o.host == h && o.port == 0)).length
+    let used := ((List.range (st.hi - st.lo + 1)).filter (fun i => live.contains (st.lo + i))).length
+    (st.hi - st.lo + 1) - used - pending
+  match op with
+  | [h, kind, s, a] =>
+    let hh := hostTok h
+    let ss := (s.drop 1).toNat?.getD 0
+    if kind == "udp_bind" || kind == "tcp_bind" then
+      let k := if kind == "udp_bind" then "udp" else "listener"
+      let reqPort := addrPort a
+      match obs with
+      | ["ok", p] =>
+        let p := p.toNat?.getD 0
+        let st := if reqPort == 0 then
+            let st := if !inRange p then st.fail ln s!"ephemeral port {p} outside the configured range" else st
+            if (c15LivePorts st hh).contains p then st.fail ln s!"ephemeral port {p} handed out while in use on h{hh}" else st
+          else
+            let st := if p != reqPort then st.fail ln s!"bind to {reqPort} returned {p}" else st
+            if st.objs.any (fun o => o.host == hh && o.kind == k && o.port == reqPort) then
+              st.fail ln s!"bind to port {reqPort} succeeded although a {k} socket already holds it" else st
+        { st with objs := st.objs ++ [{ host := hh, slot := ss, kind := k, port := p, eph := reqPort == 0 }] }
+      | ["err", "addrinuse"] =>
+        if reqPort != 0 && !st.objs.any (fun o => o.host == hh && o.kind == k && o.port == reqPort) then
+          st.fail ln s!"bind to free port {reqPort} failed with AddrInUse"
+        else if reqPort == 0 then st.fail ln "port 0 bind failed with AddrInUse" else st
+      | ["panic"] =>
+        if reqPort == 0 && freeInRange hh > 0 then
+          st.fail ln s!"ephemeral ports reported exhausted on h{hh} although {freeInRange hh} of the range are free"
+        else st
+      | _ => st
+    else if kind == "tcp_connect" then
+      let st := { st with snap := (st.snap.filter (·.1 != (hh, ss))) ++ [((hh, ss), c15LivePorts st hh)] }
+      match obs with
+      | ["pending"] => { st with objs := st.objs ++ [{ host := hh, slot := ss, kind := "connecting", port := 0, eph := true }] }
+      | ["ok", loc, _] =>
+        let p := addrPort loc
+        let st := if !inRange p then st.fail ln s!"connect got local port {p} outside the range" else st
+        let st := if (c15LivePorts st hh).contains p then st.fail ln s!"connect got local port {p} already in use on h{hh}" else st
+        { st with objs := st.objs ++ [{ host := hh, slot := ss, kind := "stream", port := p, eph := true }] }
+      | ["err", _] => { st with failedConnect := st.failedConnect ++ [hh] }
+      | ["panic"] =>
+        if freeInRange hh > 0 then
+          st.fail ln s!"ephemeral ports reported exhausted on h{hh} although {freeInRange hh} of the range are free"
+        else st
+      | _ => st
+    else if kind == "tcp_accept" then
+      match obs with
+      | ["ok", loc, _] =>
+        let ns := (a.drop 1).toNat?.getD 0
+        { st with objs := st.objs ++ [{ host := hh, slot := ns, kind := "stream", port := addrPort loc, eph := false }] }
+      | _ => st
+    else st
+  | [h, "tcp_cpoll", s] =>
+    let hh := hostTok h
+    let ss := (s.drop 1).toNat?.getD 0
+    match obs with
+    | ["ok", loc, _] =>
+      let p := addrPort loc
+      let before := match st.snap.find? (·.1 == (hh, ss)) with | some x => x.2 | none => []
+      let st := if !inRange p then st.fail ln s!"connect got local port {p} outside the range" else st
+      let st := if before.contains p then st.fail ln s!"connect got local port {p} that was in use on h{hh} when it started" else st
+      { st with objs := st.objs.map (fun o => if o.host == hh && o.slot == ss then { o with kind := "stream", port := p } else o) }
+    | ["err", "refused"] =>
+      { st with objs := st.objs.filter (fun o => !(o.host == hh && o.slot == ss)), failedConnect := st.failedConnect ++ [hh] }
+    | _ => st
+  | [h, "drop", s] =>
+    if obs == ["ok"] then c15Drop st (hostTok h) ((s.drop 1).toNat?.getD 0) else st
+  | ["ctl", "crash", h] =>
+    let hh := hostTok h
+    { st with objs := st.objs.filter (fun o => o.host != hh), failedConnect := st.failedConnect.filter (· != hh),
+              snap := st.snap.filter (fun x => x.1.1 != hh) }
+  | ["ctl", "bounce", h] =>
+    let hh := hostTok h
+    { st with objs := st.objs.filter (fun o => o.host != hh), failedConnect := st.failedConnect.filter (· != hh),
+              snap := st.snap.filter (fun x => x.1.1 != hh) }
+  -- DNS: same name ↦ same address, different names ↦ different addresses, reverse inverts
+  | ["ctl", "dns", name] =>
+    match obs with
+    | ["ok", ip] =>
+      let ip := ip.toNat?.getD 0
+      match st.nameIp.find? (·.1 == name) with
+      | some (_, ip0) => if ip0 == ip then st else st.fail ln s!"name {name} resolved to two different addresses"
+      | none =>
+        let st := match st.nameIp.find? (·.2 == ip) with
+          | some (other, _) => st.fail ln s!"names {other} and {name} share an address"
+          | none => st
+        { st with nameIp := st.nameIp ++ [(name, ip)] }
+    | _ => st
+  | ["ctl", "rdns", ip] =>
+    match st.nameIp.find? (·.2 == ip.toNat?.getD 0), obs with
+    | some (name, _), ["ok", got] => if got == name then st else st.fail ln s!"reverse lookup of {name}'s address returned {got}"
+    | some (name, _), ["none"] => st.fail ln s!"reverse lookup of {name}'s address found nothing"
+    | _, _ => st
+  | ["ctl", "dnsip", ip] =>
+    if obs == ["ok", ip] then st else st.fail ln "literal address did not resolve to itself"
+  | _ => st
+
+def oracleC15 (lines : List String) : OResult :=
+  let cfgT := match lines.find? (·.startsWith "CFG ") with | some l => toks l | none => []
+  let st0 : C15St := { lo := kvNat cfgT "ephlo" 0, hi := kvNat cfgT "ephhi" 0 }
+  let pairs := opObsPairs lines
+  let st := pairs.foldl c15Step st0
+  let res := { st.res with cov := (if st.nameIp.length > 20 then ["o:dns"] else []) ++ (if st.objs.length > 2 then ["o:ports"] else []) }
+  if res.ok then res
+  else if res.detail.startsWith "ephemeral ports reported exhausted" &&
+      (pairs.any (fun (_, op, obs) => (op.getD 1 "" == "tcp_connect" || op.getD 1 "" == "tcp_cpoll") && obs.head? == some "err")
+       || lines.any (fun l => l.startsWith "OP h" && (toks l).getD 2 "" == "drop")) then
+    { res with pattern := "F-C12-1" }
+  else res
+
 def oracle (prop : String) (lines : List String) : OResult :=
   match prop with
   | "C03" => oracleC03 lines
   | "C08" => oracleC08 lines
+  | "C15" => oracleC15 lines
   | "C14" => oracleC14 lines
   | _ => {}
 
